@@ -491,7 +491,23 @@ def run_coo(c):
         if not (isinstance(v, int) and v in bqm.variables):
             py_fail = f"COO: new variable {v!r}"
     coq = f"(KCoo 15%nat {bqm.vartype.name} {new.vartype.name} {obs_bqm(bqm, T)} {obs_bqm(new, T)})"
-    return {"coq": coq, "py_fail": py_fail, "features": feats, "nontrivial": bqm.num_variables > 0}
+    # line level: the text itself against the Coq printer, the Coq reader on it against the loaded model
+    extra = []
+    hdr, lines = "None", []
+    try:
+        for k, line in enumerate(s.split('\n')):
+            if line.startswith('#'):
+                if k != 0 or line != f"# vartype={bqm.vartype.name}":
+                    raise ValueError(f"unexpected header {line!r}")
+                hdr = f"(Some {bqm.vartype.name})"
+            elif line.strip():
+                u, v, b = line.split()
+                lines.append(f"({cnat(int(u))}, {cnat(int(v))}, {cq(Fraction(float(b)))})")
+        extra.append(f"(KCooText 15%nat {bqm.vartype.name} {cbool(c['header'])} {obs_bqm(bqm, T)} {hdr} {clist(lines)} "
+                     f"{new.vartype.name} {obs_bqm(new, T)})")
+    except ValueError as e:
+        py_fail = py_fail or f"COO text is not made of `u v bias` lines: {e}"
+    return {"coq": coq, "extra_coq": extra, "py_fail": py_fail, "features": feats, "nontrivial": bqm.num_variables > 0}
 
 
 # ----------------------------------------------------------------------------
